@@ -144,18 +144,22 @@ class WriterModel:
     def interpret_into(self, key, env):
         """Interpret a method with a pre-bound environment (used for the top-level writer whose root node
         lives in self._root_node)."""
-        cls, fn = self.funcs[key]
+        cls, fn = self.funcs[key[:2]]
         s = Summary(cls, fn)
         self._block(s, fn.body, env, [], [])
         return s
 
     def summary(self, key):
+        """key = (class name, function name[, ((param, constant), ..)]): the optional third component specialises
+        the builder for constant (string) arguments, so that `etree.Element(tag)` with a tag parameter is resolved"""
         if key in self.summaries:
             return self.summaries[key]
-        cls, fn = self.funcs[key]
+        cls, fn = self.funcs[key[:2]]
         s = Summary(cls, fn)
         self.summaries[key] = s
         env = {}
+        for pn, val in (key[2] if len(key) > 2 else ()):
+            env[pn] = ("alias", ast.Constant(value=val))
         # node-typed parameters: annotated etree.Element or named *node*
         for a in fn.args.args:
             ann = norm(a.annotation) if a.annotation is not None else ""
@@ -176,24 +180,73 @@ class WriterModel:
             if isinstance(v, tuple) and v[0] == "alias":
                 return self._value(s, v[1], env)
             return None
+        if isinstance(expr, ast.Attribute):
+            v = env.get(norm(expr))
+            if isinstance(v, (Node, CallRef, list)):
+                return v
+            return None
         if isinstance(expr, ast.IfExp):
             return alt(self._value(s, expr.body, env), self._value(s, expr.orelse, env))
         if isinstance(expr, ast.Call):
             cn = call_name(expr)
             if cn in ("etree.Element", "etree.SubElement", "ElementTree.Element", "et.Element"):
                 tag_expr = expr.args[-1] if cn != "etree.SubElement" else expr.args[1]
+                if isinstance(tag_expr, ast.Name) and isinstance(env.get(tag_expr.id), tuple) and env[tag_expr.id][0] == "alias" and isinstance(env[tag_expr.id][1], ast.Constant):
+                    tag_expr = env[tag_expr.id][1]
                 tag = tag_expr.value if isinstance(tag_expr, ast.Constant) and isinstance(tag_expr.value, str) else None
                 n = Node(tag, expr, s.fn.name, None if tag is not None else tag_expr)
                 s.all_nodes.append(n)
                 return n
             callee, recv = self.resolve_callee(s.cls, expr, env)
             if callee is not None:
+                # constant (string) arguments specialise the callee
+                cfn = self.funcs[callee][1]
+                ps = [a.arg for a in cfn.args.args]
+                if ps and ps[0] in ("cls", "self"):
+                    ps = ps[1:]
+                consts = []
+                for pn, a in list(zip(ps, expr.args)) + [(k.arg, k.value) for k in expr.keywords if k.arg]:
+                    if isinstance(a, ast.Name) and isinstance(env.get(a.id), tuple) and env[a.id][0] == "alias" and isinstance(env[a.id][1], ast.Constant):
+                        a = env[a.id][1]
+                    if isinstance(a, ast.Constant) and isinstance(a.value, str):
+                        consts.append((pn, a.value))
+                if consts:
+                    callee = callee + (tuple(sorted(consts)),)
                 return CallRef(callee, expr, list(expr.args), {k.arg: k.value for k in expr.keywords if k.arg}, recv)
             return None
         if isinstance(expr, ast.List):
             vals = [self._value(s, e, env) for e in expr.elts]
             return [v for v in vals if v is not None]
         return None
+
+    def _literal_table(self, cls, expr):
+        """cls.NAME / self.NAME / NAME denoting a class-level or module-level literal tuple (of tuples) of constants"""
+        name = None
+        if isinstance(expr, ast.Attribute) and isinstance(expr.value, ast.Name) and expr.value.id in ("cls", "self") and cls is not None:
+            for k in self.repo.mro(cls):
+                if expr.attr in k.class_assigns:
+                    val = k.class_assigns[expr.attr]
+                    name = val
+                    break
+        elif isinstance(expr, ast.Attribute) and isinstance(expr.value, ast.Name) and expr.value.id in self.mod.classes:
+            name = self.mod.classes[expr.value.id].class_assigns.get(expr.attr)
+        elif isinstance(expr, ast.Name):
+            name = self.mod.assigns.get(expr.id)
+        if isinstance(name, (ast.Tuple, ast.List)) and name.elts and all(isinstance(e, ast.Constant) or (isinstance(e, (ast.Tuple, ast.List)) and all(isinstance(x, ast.Constant) for x in e.elts)) for e in name.elts):
+            return name
+        return None
+
+    @staticmethod
+    def _split_ifexp(val):
+        """`a if c else b` as a value = value a under c, value b under not c"""
+        if isinstance(val, ast.IfExp):
+            out = []
+            for v, e in WriterModel._split_ifexp(val.body):
+                out.append((v, [(norm(val.test), True)] + e))
+            for v, e in WriterModel._split_ifexp(val.orelse):
+                out.append((v, [(norm(val.test), False)] + e))
+            return out
+        return [(val, [])]
 
     def _guards(self, node):
         return [(norm(t), pol) for t, pol in dominating_guards(self.mod, node)]
@@ -233,7 +286,8 @@ class WriterModel:
             elif isinstance(tg, ast.Attribute) and tg.attr == "text" and isinstance(tg.value, ast.Name):
                 n = env.get(tg.value.id)
                 if isinstance(n, Node):
-                    n.texts.append((val, self._guards(st), st))
+                    for val_, extra in self._split_ifexp(val):
+                        n.texts.append((val_, self._guards(st) + extra, st))
             return
         if isinstance(st, ast.Expr) and isinstance(st.value, ast.Call):
             c = st.value
@@ -245,6 +299,10 @@ class WriterModel:
                 target = env[rkey]
                 if f.attr in ("append", "extend", "insert") and c.args:
                     arg = c.args[-1]
+                    comp_loops = []
+                    if isinstance(arg, (ast.GeneratorExp, ast.ListComp)) and f.attr == "extend":
+                        comp_loops = [(norm(g.target), norm(g.iter)) for g in arg.generators]
+                        arg = arg.elt
                     v = self._value(s, arg, env)
                     if v is None:
                         # fail closed: something is appended to a node we model, and we cannot tell what
@@ -255,14 +313,15 @@ class WriterModel:
                         alias = self._returned_alias(v, env)
                         if alias is not None:
                             v = alias
-                    ch = Child(v, self._guards(st), list(loops), st, extend=(f.attr == "extend"))
+                    ch = Child(v, self._guards(st), list(loops) + comp_loops, st, extend=(f.attr == "extend" and not comp_loops))
                     if isinstance(target, Node):
                         target.children.append(ch)
                     else:
                         target.append(ch)
                     return
                 if f.attr == "set" and len(c.args) == 2 and isinstance(target, Node) and isinstance(c.args[0], ast.Constant):
-                    target.attrs.append((c.args[0].value, c.args[1], self._guards(st), st))
+                    for val_, extra in self._split_ifexp(c.args[1]):
+                        target.attrs.append((c.args[0].value, val_, self._guards(st) + extra, st))
                     return
             v = self._value(s, c, env)
             if isinstance(v, CallRef):
@@ -286,6 +345,10 @@ class WriterModel:
                 else:
                     env[k] = va if va is not None else vb
             return
+        if isinstance(st, ast.For) and not isinstance(st.iter, (ast.Tuple, ast.List)):
+            lit = self._literal_table(s.cls, st.iter)
+            if lit is not None:
+                st = ast.copy_location(ast.For(target=st.target, iter=lit, body=st.body, orelse=st.orelse), st)
         if isinstance(st, ast.For) and isinstance(st.iter, (ast.Tuple, ast.List)) and st.iter.elts and not st.orelse:
             # loop over a literal tuple (of tuples): unrolled, the targets are aliases of the element expressions
             tgts = st.target.elts if isinstance(st.target, (ast.Tuple, ast.List)) else [st.target]
